@@ -335,6 +335,41 @@ def sync_streams(src, dst):
                         ld.arm_to_model[a].rng = memo[id(r)]
 
 
+_HOOKS = ('__getstate__', '__setstate__', '__deepcopy__', '__copy__', '__reduce__', '__reduce_ex__', '__getnewargs__',
+          '__getnewargs_ex__')
+
+
+def clone(obj):
+    """harness-level deep copy that does not depend on the copy / pickle hooks of the code under test: hooks defined by
+    classes of the mabwiser modules (none on the pinned commit) are taken out for the duration of the copy, so the clone
+    is a plain attribute-by-attribute deep copy.  The copies whose fidelity C19 is about are made with copy.deepcopy /
+    pickle directly."""
+    import copy as _copy
+    import inspect
+    saved = []
+    for mod in M().values():
+        for _, cls in inspect.getmembers(mod, inspect.isclass):
+            if getattr(cls, '__module__', '').startswith('mabwiser'):
+                for h in _HOOKS:
+                    if h in cls.__dict__:
+                        saved.append((cls, h, cls.__dict__[h]))
+    seen = set()
+    saved = [x for x in saved if not ((id(x[0]), x[1]) in seen or seen.add((id(x[0]), x[1])))]
+    for cls, h, _ in saved:
+        try:
+            delattr(cls, h)
+        except (AttributeError, TypeError):
+            pass
+    try:
+        return _copy.deepcopy(obj)
+    finally:
+        for cls, h, v in saved:
+            try:
+                setattr(cls, h, v)
+            except (AttributeError, TypeError):
+                pass
+
+
 def compare_on_copies(env, tag, b1, b2, ctxd, m=1, kinds=('expectations', 'predict'), kf=None, alt_sync=False):
     """isolated blocks: deep copies of the two bandits answer the same symbolic query; outputs must be equal.
     kf + alt_sync: listed known finding whose bug-compatible reference is b2 with b1's generator positions"""
@@ -343,11 +378,11 @@ def compare_on_copies(env, tag, b1, b2, ctxd, m=1, kinds=('expectations', 'predi
         t = '%s.%s' % (tag, what[:4])
 
         def blk(t=t, what=what):
-            c1, c2 = _copy.deepcopy(b1), _copy.deepcopy(b2)
+            c1, c2 = clone(b1), clone(b2)
             q = env.reals('q_%s' % t, (m, ctxd)) if ctxd else None
             alt = None
             if kf and alt_sync:
-                c3 = _copy.deepcopy(b2)
+                c3 = clone(b2)
                 sync_streams(c1, c3)
                 o1 = ask(c1, what, q)
                 alt = ask(c3, what, q)
